@@ -4,10 +4,11 @@
 //! `Unreachable`); without a deny since the last usable answer it reports `Unreachable`.
 //! RATE: the next poll exponent on the wire is not smaller than the one just used (and one step
 //! longer until the maximum), and the value handed to the poll timer is >= 1.01 * 2^floor.
-//! Unknown KISS: nothing observable changes. Rig, reference and driver: `c11_task.rs`.
+//! Unknown KISS: nothing observable changes. A KISS never keeps a usable answer that arrives
+//! after it in the same poll from being used. Rig, reference and driver: `c11_task.rs`.
 #![allow(dead_code)]
 
-use super::c11_task::{self as rig, Plan, Sym, Ts, Ver, cfg};
+use super::c11_task::{self as rig, Cfg, Ts, Ver, cfg, plan};
 use super::common::{self, Ctx};
 
 fn replay(ctx: &Ctx, trace: &str) -> String {
@@ -23,13 +24,22 @@ fn check() {
         common::report_replay("C09", &a, &b, ctx.violation_count() > 0);
         return;
     }
-    ctx.rule("every script of exactly n poll reactions (shorter scripts are their prefixes: silence follows anyway) over {N none, V valid, D DENY, S RSTR (v4), R RATE, U unknown KISS, O wrong origin, Q (v5) valid asking for max+2} played by a scripted UDP server against the real SourceTask::run, then silent polls until the task gives up; distinct = canonical observation differs");
+    ctx.rule("every script of exactly n polls (shorter scripts are their prefixes: silence follows anyway) in which the scripted UDP server reacts to each poll with any sequence of at most k datagrams, in every order, over {V valid, D DENY, S RSTR (v4), R RATE, U unknown KISS, O wrong origin, Q (v5) valid asking for max+2}, played against the real SourceTask::run, then silent polls until the task gives up; controller desire = min, and = max for the RATE ladders; distinct = canonical observation differs");
     rig::common_assumptions(&ctx);
-    ctx.assume("a KISS answer does not consume the pending request (statement silent; one KISS per poll is sent, so this is not exercised)");
+    ctx.assume("a KISS answer does not consume the pending request: a second RATE in the same poll counts as a second RATE, a valid answer after a KISS in the same poll is usable (the statement is silent; only lower bounds are derived from it)");
     let quick = ctx.quick();
-    let alpha = vec![Sym::N, Sym::V, Sym::D, Sym::S, Sym::R, Sym::U, Sym::O, Sym::Q];
-    let len = if quick { 5 } else { 6 };
+    let alpha = "VDSRUOQ";
     let mut plans = Vec::new();
+    // up to two datagrams per poll, every order
+    plans.push(plan(cfg(Ver::V4, 4, 10, Ts::Kr), alpha, 2, if quick { 2 } else { 3 }));
+    plans.push(plan(cfg(Ver::V5, 4, 6, Ts::Sw), alpha, 2, 2));
+    plans.push(plan(cfg(Ver::Auto, 4, 10, Ts::Ka), "VDRU", 2, 2));
+    plans.push(plan(cfg(Ver::V4, 4, 6, Ts::Sw), "VDR", 2, 3));
+    if !quick {
+        plans.push(plan(cfg(Ver::V4, 4, 6, Ts::Ka), "VDRU", 3, 2));
+    }
+    // one datagram per poll
+    let n = if quick { 5 } else { 6 };
     for c in [
         cfg(Ver::V4, 4, 10, Ts::Kr),
         cfg(Ver::V4, 4, 4, Ts::Sw),
@@ -38,13 +48,17 @@ fn check() {
         cfg(Ver::V5, 4, 6, Ts::Sw),
         cfg(Ver::Auto, 4, 10, Ts::Ka),
     ] {
-        plans.push(Plan { cfg: c, alphabet: alpha.iter().copied().filter(|s| s.applies(c.ver)).collect(), len });
+        plans.push(plan(c, alpha, 1, n));
     }
     if !quick {
-        plans.push(Plan { cfg: cfg(Ver::V4, 4, 10, Ts::Ka), alphabet: alpha.iter().copied().filter(|s| s.applies(Ver::V4)).collect(), len: 7 });
+        plans.push(plan(cfg(Ver::V4, 4, 10, Ts::Ka), alpha, 1, 7));
     }
-    // RATE ladder to the configured maximum and beyond: 4 -> 10 needs six RATE answers
-    plans.push(Plan { cfg: cfg(Ver::V4, 4, 10, Ts::Sw), alphabet: vec![Sym::R, Sym::V, Sym::N], len: if quick { 8 } else { 11 } });
+    // RATE ladders to the configured maximum and beyond: 4 -> 10 needs six RATE answers
+    plans.push(plan(cfg(Ver::V4, 4, 10, Ts::Sw), "RV", 1, if quick { 8 } else { 11 }));
+    plans.push(plan(cfg(Ver::V4, 10, 17, Ts::Sw), "RV", 1, if quick { 8 } else { 9 }));
+    // the source's own interval is already the longest: RATE must not shorten anything
+    plans.push(plan(Cfg { des: 10, ..cfg(Ver::V4, 4, 10, Ts::Sw) }, "RVD", 1, 4));
+    plans.push(plan(Cfg { des: 6, ..cfg(Ver::V5, 4, 10, Ts::Sw) }, "RVQ", 1, 4));
     rig::explore(&ctx, "C09", &plans);
     ctx.finish();
 }
